@@ -22,6 +22,10 @@ func runC18(c *Ctx) {
 	c.Rule("R18d", "per-statement derivation in DevLoader.nextStmts: ExecContext ≺ inspect ≺ RealmDiff(state before, state after) ≺ append of a Change carrying this statement ≺ state advanced; DevLoader.LoadChanges uses the whole-file shortcut `first` only under len(base) == 0 for the first file", 6)
 	c.Rule("R18e", "the lint runner appends every analyzer error of a file to the file report and keeps analysing the other analyzers", 2)
 
+	c.Rule("R18g", "life-span lattice: in sql/sqlcheck every write of the constant SpanDropped to a ResourceSpan accumulates (`|=`, or `x = x | SpanDropped`), so an object added and dropped by the same file reaches SpanTemporary (Added|Dropped) — the value the destructive analyzer's exemption compares with — and a write of SpanAdded never clears it after a drop in the same switch arm", 3)
+	checkSpanAccumulates(c, "R18g")
+	c.Rule("R18h", "state threading: every DevLoader method that executes the statements of a file and returns the realm after it returns, on each success return, a realm derived from an inspection (the result of d.inspect, a variable with a definition copied from one, or the result of a sibling method under the same rule) — never only the `start` realm it was given", 3)
+	checkRealmThreading(c, "R18h")
 	c.Rule("R18f", ruleTextWindowGuard, 1)
 	checkWindowGuard(c, "R18f")
 
